@@ -257,6 +257,10 @@ def main(argv=None):
     unknown = group_failures(unknown)
     rc = 0
     paths = []
+    if os.environ.get("VF_DUMP_ALL"):  # triage aid: one witness per unknown signature, nothing else changes
+        with open(os.environ["VF_DUMP_ALL"], "w") as fh:
+            for f in unknown:
+                fh.write(json.dumps(asdict(f), default=str) + "\n")
     for f in unknown[:MAX_REPLAYS_PER_RUN]:
         paths.append((f, write_replay(f, args.seed)))
     # determinism re-check of (a few) new violations in fresh processes
